@@ -124,6 +124,47 @@ def twin(rng, p):
     return "".join(c if c.isspace() else rng.choice(MARK) for c in p)
 
 
+WIDTH_POOLS = {1: "abcdefghjkmnpqrtuvwxyzBCDEFGHJKLMNQRTVWXYZ2345678", 2: "\u00e9\u00fc\u00f1\u00f8\u0416\u0449\u03bb\u03a9", 3: "\u5bc6\u7801\u6c34\u706b\u5c71\u20ac", 4: "\U0001f511\U0001f600\U00010348"}
+WIDTH_OBS = {"n": 0, "example": None}
+
+
+def peer(rng, p):
+    """same length, same whitespace skeleton and the same UTF-8 width character by character, every non-blank
+    character replaced by a different plain character of its width"""
+    out = []
+    for c in p:
+        if c.isspace():
+            out.append(c)
+            continue
+        try:
+            w = len(c.encode("utf-8"))
+        except UnicodeEncodeError:
+            out.append(c)
+            continue
+        out.append(rng.choice([x for x in WIDTH_POOLS[w] if x != c]))
+    return "".join(out)
+
+
+def only_byte_length(rng, p, base, rerun):
+    """p and its marker twin logged differently.  The twin has the same number of characters but (markers are 3
+    bytes wide) usually another ENCODED length, and "at most its length is revealed" allows a record to depend on
+    the length of the password as sent (e.g. a byte count of the line).  Adjudicate with a third run on a peer
+    of p with the same character widths: equal to p's -> the difference is attributable to the encoded length
+    alone (counted as an observation); different -> the log depends on the characters: violation."""
+    q = peer(rng, p)
+    if q == p or len(q.encode("utf-8", "surrogatepass")) != len(p.encode("utf-8", "surrogatepass")):
+        return False
+    try:
+        other = rerun(q)
+    except Exception:
+        return False
+    if other != base:
+        return False
+    WIDTH_OBS["n"] += 1
+    WIDTH_OBS["example"] = WIDTH_OBS["example"] or {"password": p, "peer": q}
+    return True
+
+
 # ---------------------------------------------------------------------------- capture
 TRACE = 1  # the lowest level a record can have: "at any log level" quantifies over the logger configuration
 
@@ -648,7 +689,13 @@ def scripted_pair(rng, groups, user, p, account, debug=False, timeout=None):
     if hit:
         fails.append(("leak", hit))
     if o1 != o2 or transcript(c1) != transcript(c2):
-        fails.append(("twin", first_diff(transcript(c1), transcript(c2))))
+
+        def rerun(q):
+            o, _, c = run_scripted_login(groups, user, q, account, debug=debug, timeout=timeout)
+            return (o, transcript(c))
+
+        if not only_byte_length(rng, p1, (o1, transcript(c1)), rerun):
+            fails.append(("twin", first_diff(transcript(c1), transcript(c2))))
     return runs, fails
 
 
@@ -672,6 +719,7 @@ def correspondence(ctx, budget=None):
         "A case is non-trivial when its (stream, verb/outcome, password) key is new."
     )
     xcheck = []
+    WIDTH_OBS.update(n=0, example=None)
     ctx.extra["censor_commands_default"] = censor
 
     # ------------------------------------------------------------ F1
@@ -722,7 +770,10 @@ def correspondence(ctx, budget=None):
                         "server log record contains a character of the PASS argument",
                         {"key": "c20-line-leak", "verb": v, "sep": sep, "password": p, "end": e, "record": list(hit[0][:5]), "found": hit[1]},
                     )
-                if prev is not None and transcript(prev[1]) != transcript(cs):
+                if prev is not None and transcript(prev[1]) != transcript(cs) and not only_byte_length(
+                    rng, prev[0], transcript(prev[1]),
+                    lambda q: transcript(impl_parse_command(loop, server, (v + sep + q + e).encode("utf-8", "surrogatepass"))[1]),
+                ):
                     ctx.violation(
                         "server log differs between two PASS arguments of equal length",
                         {"key": "c20-line-twin", "verb": v, "sep": sep, "password": prev[0], "twin": p, "end": e,
@@ -765,7 +816,9 @@ def correspondence(ctx, budget=None):
                         "client log record contains a character of the password",
                         {"key": "c20-client-command-leak", "command": cmd, "censor_after": k, "record": list(hit[0][:5]), "found": hit[1]},
                     )
-                if prev is not None and transcript(prev[1]) != transcript(cs):
+                if prev is not None and transcript(prev[1]) != transcript(cs) and not only_byte_length(
+                    rng, prev[0][5:], transcript(prev[1]), lambda q: transcript(impl_client_command(loop, client, "PASS " + q, k)[1])
+                ):
                     ctx.violation(
                         "client log differs between two passwords of equal length",
                         {"key": "c20-client-command-twin", "command": prev[0], "twin": cmd, "censor_after": k},
@@ -819,7 +872,12 @@ def correspondence(ctx, budget=None):
                     {"key": "c20-session-leak", "driver": "client", "kind": kd, "password": p2, "logger": hit[0][0],
                      "record": list(hit[0][:5]), "found": hit[1]},
                 )
-            if o1 != o2 or transcript(c1) != transcript(c2):
+            def rerun1(q, kd=kd):
+                spec, user, fault = session_setup(kd, q)
+                o, c = run_client_session(spec, user, q, fault=fault, logins=SESSION_LOGINS.get(kd, 1))
+                return (o, transcript(c))
+
+            if (o1 != o2 or transcript(c1) != transcript(c2)) and not only_byte_length(rng, p1, (o1, transcript(c1)), rerun1):
                 ctx.violation(
                     "log transcripts of two logins with passwords of equal length differ",
                     {"key": "c20-session-twin", "driver": "client", "kind": kd, "password": p1, "twin": p2, "outcomes": [o1, o2],
@@ -883,7 +941,11 @@ def correspondence(ctx, budget=None):
                 {"key": "c20-session-leak", "driver": "raw", "verb": V, "sequence": seq, "password": p2, "end": end,
                  "logger": hit[0][0], "record": list(hit[0][:5]), "found": hit[1]},
             )
-        if r1 != r2 or transcript(c1) != transcript(c2):
+        def rerun2(q, seq=seq, V=V, end=end):
+            r, c = run_raw_session(raw_spec(seq, q), [(l + end).encode("utf-8", "surrogatepass") for l in raw_script(seq, V, q)], fault=(seq == "auth-fault"))
+            return (r, transcript(c))
+
+        if (r1 != r2 or transcript(c1) != transcript(c2)) and not only_byte_length(rng, p1, (r1, transcript(c1)), rerun2):
             ctx.violation(
                 "log transcripts of two raw sessions with PASS arguments of equal length differ",
                 {"key": "c20-session-twin", "driver": "raw", "verb": V, "sequence": seq, "password": p1, "twin": p2, "end": end,
@@ -1011,6 +1073,7 @@ def correspondence(ctx, budget=None):
                 {"key": "c20-traceback-leak", "case": name, "record": list(hit[0][:5]), "found": hit[1]},
             )
     ctx.extra["out_of_domain_observations"] = obs
+    ctx.extra["twin_differences_attributable_to_encoded_length_only"] = dict(WIDTH_OBS)
 
     ok, out = core.vm_crosscheck(EXTRACT, xcheck)
     ctx.extra["vm_compute_crosscheck"] = {"cases": len(xcheck), "agree": ok}
